@@ -3,7 +3,7 @@
  "property": ["C02", "C03"],
  "entry": "h_wb",
  "enforce": ["crypto_aesctr_aesni_stream_wholeblocks"],
- "replace": ["crypto_aes_encrypt_block_aesni_m128i", "_mm_loadu_si128", "_mm_storeu_si128"],
+ "replace": ["crypto_aes_encrypt_block_aesni_m128i", "_mm_loadu_si128", "_mm_storeu_si128", "_mm_loadu_si64"],
  "annotate": ["crypto/crypto_aesctr_aesni.c", "crypto/crypto_aesctr_shared.c"],
  "defines": ["VERIF_HALLOC", "CPUSUPPORT_X86_AESNI=1"],
  "matrix": {"BUFMODE": [0, 1]},
@@ -11,6 +11,8 @@
  "cflags": ["-msse2", "-maes"],
  "timeout": 400,
  "assumptions": ["SSE2 builtin punpcklqdq modelled from the SDM (models/x86_sse2.c)",
+                 "_mm_loadu_si64 under an assumed contract (loads 8 bytes into the low lane; upper lane unspecified): CBMC cannot interpret GCC's __m64 cast",
+                 "_mm_loadu_si128/_mm_storeu_si128 replaced by contracts that are enforced on the GCC header bodies in C02/ctr_aesni_ldst",
                  "block cipher on vector registers abstracted at the ghost point (G3)",
                  "buffer objects <= CTR_MAXLEN bytes; number of blocks unbounded (loop contract)"]
 }
